@@ -70,7 +70,7 @@ extern "C" uint32_t stub_GetNextCode(HuffLZ* self) {
   return code;
 }
 extern "C" void stub_UpdateCodeCount(AdaptiveHuffmanTree*, uint16_t) {}
-extern "C" void stub_TreeCtor(AdaptiveHuffmanTree*, uint16_t) {}     // the tree is not used when both calls above are stubbed
+extern "C" void stub_TreeCtor(AdaptiveHuffmanTree* t, uint16_t) { memset((void*)t, 0, sizeof(AdaptiveHuffmanTree)); }     // an empty tree (never consulted when the calls above are stubbed); its destructor must find valid empty vectors
 
 // ---------- reference LZ decoder driven by the same code choices (recorded by a second stub) and the same bit stream
 static uint16_t g_codes[64]; static uint8_t g_nbits[64]; static unsigned g_ncodes;
@@ -160,5 +160,40 @@ extern "C" void h_decode(void) {
   vf_assert(got == rn, "the decoder delivers exactly as many bytes as the reference decoder produces");
   for (uint64_t i = 0; i < OUTCAP; i++) { if (i >= rn) break; vf_assert(out[i] == ref[i], "delivered bytes equal the reference decoder's, in order"); }
   for (int i = 0; i < 8; i++) vf_assert(out[OUTCAP + i] == 0xEE, "nothing is written past the caller's buffer");
+  VF_WITNESS();
+}
+
+// ---------- K: GetRepeatOffset at every bit alignment (only the Huffman tree constructor is stubbed; the window is not touched)
+extern "C" void h_repeat_offset(void) {
+  g_may_throw = false;
+  uint8_t in[3]; vf_havoc(in, 3);
+  HuffLZ d(BitStreamReader(in, 3));
+  uint8_t k = vf_nondet_u8(); vf_assume(k < 8);
+  for (uint8_t i = 0; i < 8; i++) { if (i >= k) break; d.m_BitStreamReader.ReadNextBit(); }
+  unsigned used = 0; unsigned want = ref_position(in, 24, k, &used);
+  unsigned got = d.GetRepeatOffset();
+  vf_assert(got == want, "decoded distance equals the format's position code at every bit alignment");
+  vf_assert(got < 4096, "distances stay inside the 4 KiB window");
+  uint64_t pos = d.m_BitStreamReader.GetBitReadPos();
+  if ((uint64_t)k + used <= 24) vf_assert(pos == (uint64_t)k + used, "a position consumes 9 to 14 bits");
+  VF_WITNESS();
+}
+// ---------- I: CopyAvailableData for small requests from arbitrary ring indices over a position-revealing window
+extern "C" void h_copy_available(void) {
+  g_may_throw = false;
+  uint8_t in[1] = { 0 };
+  HuffLZ d(BitStreamReader(in, 1));
+  for (unsigned i = 0; i < 4096; i++) d.m_DecompressBuffer[i] = (char)(i * 7 + (i >> 8) + 3);
+  uint64_t r = vf_nondet_u64(), w = vf_nondet_u64(); vf_assume(r < 4096 && w < 4096);
+  d.m_BuffReadIndex = r; d.m_BuffWriteIndex = w;
+  uint64_t n = vf_nondet_u64(); vf_assume(n <= 8);
+  uint8_t out[12]; memset(out, 0xEE, 12);
+  uint64_t avail = (w - r) & 4095;
+  uint64_t got = d.CopyAvailableData((char*)out, n);
+  uint64_t want = n < avail ? n : avail;
+  vf_assert(got == want, "delivers min(requested, available) bytes");
+  for (uint64_t i = 0; i < 12; i++) { uint64_t idx = (r + i) & 4095; uint8_t b = (uint8_t)(idx * 7 + (idx >> 8) + 3); vf_assert(out[i] == (i < want ? b : 0xEE), "bytes come from the ring in order starting at the read index; nothing is written past the request"); }
+  vf_assert(d.m_BuffReadIndex == ((r + want) & 4095) || (d.m_BuffReadIndex == r + want && r + want <= 4096), "read index advances by the bytes delivered");
+  vf_assert(d.m_BuffWriteIndex == w, "write index untouched");
   VF_WITNESS();
 }
